@@ -573,6 +573,19 @@ def run_C09(ctx, K):
     if rep2:
         ctx.coq_cases += rep2.get("coq_cases", 0)
         K.run_cases(ctx, cases2, "Engine.parStabilize (memoized binds)~ParallelStabilize(parallelism 1), memo stream")
+    # a memoized bind that drops stale outer nodes of its own height block and later returns to the cached
+    # right-hand side that reads them (the pardrop shape with BindMemoized): serial, parallelism 1 on the model, parallelism 4 twin
+    cases3 = os.path.join(ctx.rundir, "cases_C09_pardropmemo.v")
+    rep3 = K.run_tool(ctx, b, ["-prop", "pardropmemo", "-claim", "C09", "-include", "C01,C05,C06,C07,C10", "-n", str(tier_n(ctx, 150, 2000)),
+                               "-coq", cases3, "-coqmax", str(tier_n(ctx, 30, 300)), "-seed", str(ctx.seed)], "engine-pardropmemo")
+    if rep3:
+        ctx.coq_cases += rep3.get("coq_cases", 0)
+        K.run_cases(ctx, cases3, "Engine.v (memoized binds)~incrutil.BindMemoized (pardropmemo stream)")
+    rep4, cases4 = run_par_stream(ctx, K, b, "pardropmemo", 1, tier_n(ctx, 60, 800), "par1_pardropmemo", False, claim="C09", include="C01,C04,C05,C06,C07,C10")
+    if rep4:
+        ctx.coq_cases += rep4.get("coq_cases", 0)
+        K.run_cases(ctx, cases4, "Engine.parStabilize (memoized binds)~ParallelStabilize(parallelism 1), pardropmemo stream")
+    run_par_stream(ctx, K, b, "pardropmemo", 4, tier_n(ctx, 200, 2000), "par4_pardropmemo", False, claim="C09", include="C01,C04,C05,C06,C07,C10")
     cases = os.path.join(ctx.rundir, "cases_C09_keys.v")
     rep = K.run_tool(ctx, b, ["-mode", "memokeys", "-len", str(tier_n(ctx, 5, 7)), "-claim", "C09", "-include", "C01,C05,C06,C07,C10",
                               "-coq", cases, "-coqmax", str(tier_n(ctx, 60, 400)), "-seed", str(ctx.seed)], "memo-keys")
